@@ -1,6 +1,7 @@
 package larking
 
 import (
+	"bytes"
 	"context"
 	"encoding/json"
 	"fmt"
@@ -172,6 +173,14 @@ func (s *streamHTTP) readMsg(c Codec, b []byte) (int, []byte, error) {
 		b, n, err := codec.ReadNext(b, s.r, s.opts.maxReceiveMessageSize)
 		if err == io.EOF {
 			s.rEOF, err = true, nil
+			if n == 0 && count > 0 {
+				// The body ended: there is no further message, and bytes
+				// that are left over belong to a truncated one.
+				if len(bytes.TrimSpace(b)) > 0 {
+					return count, nil, io.ErrUnexpectedEOF
+				}
+				return count, nil, io.EOF
+			}
 		}
 		s.rbuf = append(s.rbuf[:0], b[n:]...)
 		return count, b[:n], err
